@@ -293,9 +293,20 @@ def apply_mutant(repo, m):
     p = repo / m["file"]
     orig = (REPO / m["file"]).read_text()
     lines = orig.split("\n")
-    ln = lines[m["line"] - 1]
-    assert ln[m["col"]:m["end"]] == m["old"], (m, ln)
-    lines[m["line"] - 1] = ln[:m["col"]] + m["new"] + ln[m["end"]:]
+    idx = m["line"] - 1
+    ln = lines[idx] if idx < len(lines) else ""
+    if ln[m["col"]:m["end"]] != m["old"] or (m.get("linetext") is not None and ln != m["linetext"]):
+        # the file changed since the mutants were enumerated (fix commits): find the same source line again
+        want = m.get("linetext")
+        if want is None:
+            gen = os.environ.get("MUTANTS_GEN_COMMIT", "83ce2cc")
+            old_src = sh(["git", "-C", str(REPO), "show", f"{gen}:{m['file']}"]).stdout.split("\n")
+            want = old_src[m["line"] - 1] if m["line"] - 1 < len(old_src) else None
+        hits = [i for i, l in enumerate(lines) if l == want]
+        assert want is not None and len(hits) == 1, ("cannot relocate", m["id"], len(hits))
+        idx, ln = hits[0], lines[hits[0]]
+        assert ln[m["col"]:m["end"]] == m["old"], (m, ln)
+    lines[idx] = ln[:m["col"]] + m["new"] + ln[m["end"]:]
     p.write_text("\n".join(lines))
     return orig
 
